@@ -42,11 +42,14 @@ type Iv struct {
 
 // TFact is a base fact of the temporal store; arguments are small numbers.
 // InText: the fact is written in the program text (pred(args)@[lo, hi].) instead of being put into the store.
+// Out (only read when Case.Layered): the fact is added through the teeing store, i.e. sits in its output layer,
+// instead of in the base layer.
 type TFact struct {
 	Pred   string  `json:"pred"`
 	Args   []int64 `json:"args"`
 	Iv     Iv      `json:"iv"`
 	InText bool    `json:"in_text,omitempty"`
+	Out    bool    `json:"out,omitempty"`
 }
 
 // PFact is a fact of the ordinary store.
@@ -105,7 +108,12 @@ type Rule struct {
 }
 
 // Case is one generated input. A predicate is temporal iff its name starts with "t".
+// Layered: the temporal store handed to the engine is a factstore.TeeingTemporalStore over a base
+// factstore.TemporalStore (what the interpreter builds): facts with Out are added through the tee, the others
+// sit in the base layer; facts written in the text and derived facts reach the output layer through the engine.
+// The meaning of the case does not depend on it (reads go to the union of both layers).
 type Case struct {
+	Layered  bool    `json:"layered,omitempty"`
 	Now      int64   `json:"now"` // evaluation time, tick
 	Temporal []TFact `json:"temporal"`
 	Plain    []PFact `json:"plain"`
@@ -350,12 +358,20 @@ func runEngine(c Case, text string) (out outcome) {
 		out.analysisErr = err
 		return
 	}
-	ts := factstore.NewTemporalStore()
+	baseLayer := factstore.NewTemporalStore()
+	var ts factstore.TemporalFactStore = baseLayer
+	if c.Layered {
+		ts = factstore.NewTeeingTemporalStore(baseLayer)
+	}
 	for _, f := range c.Temporal {
 		if f.InText {
 			continue
 		}
-		if _, err := ts.Add(numAtom(f.Pred, f.Args), f.Iv.build()); err != nil {
+		target := factstore.TemporalFactStore(baseLayer)
+		if c.Layered && f.Out {
+			target = ts
+		}
+		if _, err := target.Add(numAtom(f.Pred, f.Args), f.Iv.build()); err != nil {
 			out.malformed = append(out.malformed, fmt.Sprintf("base fact refused by the store: %v", err))
 		}
 	}
@@ -456,6 +472,9 @@ func check(run *stats.Run, f stats.Failer, c Case) verdict {
 			return finish()
 		}
 	}
+	for l := range c.layerLabels() {
+		labels[l] = true
+	}
 	text := c.Source()
 	out := runEngine(c, text)
 	describe := func() string {
@@ -467,7 +486,12 @@ func check(run *stats.Run, f stats.Failer, c Case) verdict {
 			fmt.Fprintf(&sb, " %s%v@[%s, %s]", tf.Pred, tf.Args, showNanos(lo), showNanos(hi))
 			if tf.InText {
 				sb.WriteString("(in the text)")
+			} else if c.Layered && tf.Out {
+				sb.WriteString("(output layer)")
 			}
+		}
+		if c.Layered {
+			sb.WriteString("\ntemporal store: TeeingTemporalStore; the facts marked (output layer) were added through it, the unmarked ones sit in its base layer")
 		}
 		sb.WriteString("\nplain base facts:")
 		for _, pf := range c.Plain {
@@ -498,6 +522,50 @@ func check(run *stats.Run, f stats.Failer, c Case) verdict {
 	}
 	v.nontrivial = ref.nontrivial
 	return finish()
+}
+
+// layerLabels describes how the base facts are spread over the two layers of a layered store.
+func (c Case) layerLabels() map[string]bool {
+	labels := map[string]bool{}
+	if !c.Layered {
+		return labels
+	}
+	labels["layered-store"] = true
+	type layers struct{ base, out bool }
+	atoms := map[string]*layers{}
+	split := map[string]bool{} // predicates with an atom that has intervals in both layers
+	for _, f := range c.Temporal {
+		k := fmt.Sprint(f.Pred, f.Args)
+		if atoms[k] == nil {
+			atoms[k] = &layers{}
+		}
+		if f.InText || f.Out {
+			atoms[k].out = true
+		} else {
+			atoms[k].base = true
+		}
+		if atoms[k].base && atoms[k].out {
+			split[f.Pred] = true
+		}
+	}
+	if len(split) > 0 {
+		labels["layered:atom-with-intervals-in-both-layers"] = true
+	}
+	for _, r := range c.Rules {
+		for _, l := range r.Body {
+			if l.K != "t" || !split[l.Pred] {
+				continue
+			}
+			// the literals answered from a scan of all stored intervals of the atom
+			if l.Op == "[-" || l.Op == "[+" {
+				labels["layered:box-over-atom-in-both-layers"] = true
+			}
+			if l.Ann != nil && (l.Ann.Lo.K == "var" || l.Ann.Hi.K == "var" || l.Ann.Lo.K == "inf" || l.Ann.Hi.K == "inf") {
+				labels["layered:variable-annotation-over-atom-in-both-layers"] = true
+			}
+		}
+	}
+	return labels
 }
 
 // malformed rejects cases the generator cannot produce (hand-edited replay files).
